@@ -494,3 +494,124 @@ func portTableField(p *Program) string {
 	}
 	return f
 }
+
+// pooledObjectsReset: an object of an in-repo struct type taken from a sync.Pool carries whatever its previous user left
+// in it. In handler-reachable code of the given packages every field of such an object must be assigned again (or the
+// whole object overwritten) in the function that takes it from the pool; a field that is not is state leaking from an
+// earlier connection into this one (a login, a pending user name, a rename source, a restart offset).
+func pooledObjectsReset(c *Ctx, rule string, relPrefixes ...string) {
+	p := c.P
+	for _, fn := range p.FuncsIn(relPrefixes...) {
+		for _, call := range Calls(fn) {
+			cv, ok := call.(*ssa.Call)
+			if !ok || !MethodIs(cv.Call.StaticCallee(), "sync", "Pool", "Get") {
+				continue
+			}
+			for _, ref := range *cv.Referrers() {
+				ta, ok := ref.(*ssa.TypeAssert)
+				if !ok {
+					continue
+				}
+				var obj ssa.Value = ta
+				if ta.CommaOk {
+					for _, r2 := range *ta.Referrers() {
+						if ex, ok := r2.(*ssa.Extract); ok && ex.Index == 0 {
+							obj = ex
+						}
+					}
+				}
+				pt, ok := ta.AssertedType.(*types.Pointer)
+				if !ok {
+					continue
+				}
+				nt := NamedOf(pt.Elem())
+				if nt == nil || nt.Obj().Pkg() == nil || !strings.HasPrefix(nt.Obj().Pkg().Path(), ModPath) {
+					continue
+				}
+				st, ok := nt.Underlying().(*types.Struct)
+				if !ok {
+					continue
+				}
+				assigned := map[string]bool{}
+				whole := false
+				if obj.Referrers() != nil {
+					for _, r2 := range *obj.Referrers() {
+						switch x := r2.(type) {
+						case *ssa.FieldAddr:
+							for _, r3 := range *x.Referrers() {
+								if s3, ok := r3.(*ssa.Store); ok && s3.Addr == ssa.Value(x) {
+									assigned[fieldNameOf(x)] = true
+								}
+								// a buffered reader/writer kept and re-pointed: c.controlReader.Reset(conn)
+								if ld, ok := r3.(*ssa.UnOp); ok && ld.Referrers() != nil {
+									for _, r4 := range *ld.Referrers() {
+										if rc, ok := r4.(ssa.CallInstruction); ok {
+											if f := rc.Common().StaticCallee(); f != nil && f.Name() == "Reset" && len(rc.Common().Args) > 0 && rc.Common().Args[0] == ssa.Value(ld) {
+												assigned[fieldNameOf(x)] = true
+											}
+										}
+									}
+								}
+							}
+						case *ssa.Store:
+							if x.Addr == obj {
+								whole = true
+							}
+						}
+					}
+				}
+				// fields (re)set by a method the object is handed to right away (m.unmarshal(data)): stores to receiver fields in
+				// blocks that every successful return of that method has passed
+				if obj.Referrers() != nil {
+					for _, r2 := range *obj.Referrers() {
+						call, ok := r2.(*ssa.Call)
+						if !ok || len(call.Call.Args) == 0 || call.Call.Args[0] != obj {
+							continue
+						}
+						hf := call.Call.StaticCallee()
+						if hf == nil || !InRepo(hf) || hf.Blocks == nil || len(hf.Params) == 0 {
+							continue
+						}
+						var okRets []*ssa.Return
+						for _, r := range Returns(hf) {
+							rv := RetVals(r)
+							if len(rv) > 0 {
+								if k, isK := rv[0].(*ssa.Const); isK && k.Value != nil && k.Value.String() == "false" {
+									continue
+								}
+							}
+							okRets = append(okRets, r)
+						}
+						for _, b := range hf.Blocks {
+							domAll := len(okRets) > 0
+							for _, r := range okRets {
+								if !b.Dominates(r.Block()) {
+									domAll = false
+								}
+							}
+							if !domAll {
+								continue
+							}
+							for _, in := range b.Instrs {
+								if s3, ok := in.(*ssa.Store); ok {
+									if fa, ok := s3.Addr.(*ssa.FieldAddr); ok && fa.X == ssa.Value(hf.Params[0]) {
+										assigned[fieldNameOf(fa)] = true
+									}
+								}
+							}
+						}
+					}
+				}
+				var missing []string
+				for i := 0; i < st.NumFields() && !whole; i++ {
+					f := st.Field(i)
+					if !assigned[f.Name()] && !isMutexType(f.Type()) {
+						missing = append(missing, f.Name())
+					}
+				}
+				key := shortFn(fn) + " takes a " + nt.Obj().Name() + " from a sync.Pool"
+				c.Check(len(missing) == 0, rule, key, p.InstrPos(cv), "every field is assigned again before use", "the recycled "+nt.Obj().Name()+" keeps the previous user's "+strings.Join(missing, ", ")+": whatever its previous user left there (a login, a pending user name, lists parsed from an earlier message) carries over into this use")
+			}
+		}
+	}
+}
